@@ -56,7 +56,7 @@ pub fn gnp_request_k(n: i64, pnum: i64, pden: u64, directed: bool, seed: u64, km
     let p = pnum as f64 / pden as f64;
     let k = if pnum <= 0 || pnum as u64 >= pden { 0 } else { ((n.max(0) * n.max(0) + n.max(0) + 5) as usize).min(kmax) };
     let sk = skips(p, seed, k);
-    format!("gnp {} {} {} {} {} {}{}", n, pnum, pden, directed as u8, seed, sk.len(), sk.iter().map(|x| format!(" {}", x)).collect::<String>())
+    format!("gnp {} {} {} {} {} {}{}", n, pnum, pden, directed as u8, seed as i64, sk.len(), sk.iter().map(|x| format!(" {}", x)).collect::<String>())
 }
 
 fn gnp_call(n: i32, p: f64, directed: bool, seed: u64) -> Result<(String, String), Error> {
@@ -128,7 +128,7 @@ pub fn gen_case(rng: &mut Rng, family: &str, profile: &str, size: usize) -> Stri
                 4 => (1, 1_000_000_000_000), 5 => (1, 100_000_000_000_000_000), 6 => (999_999, 1_000_000),
                 _ => (rng.range(1, 99), 100),
             };
-            gnp_request(n, pnum, pden, directed, rng.below(100000))
+            gnp_request(n, pnum, pden, directed, crate::comm::special_seed(rng, 100000))
         }
         "gnpstat" => {
             // ordinary probabilities, and probabilities so small that the expected number of edges is a few or (almost) none
